@@ -86,6 +86,15 @@ Fixpoint starts_with (p s : bytes) : bool :=
   end.
 Definition ends_with_slash (s : bytes) : bool := match s with [] => false | _ => last s 0 =? 47 end.
 Definition strip_slash (s : bytes) : bytes := if ends_with_slash s then removelast s else s.
+(** strings.TrimRight(s, "/") *)
+Fixpoint trim_right_slash (s : bytes) : bytes :=
+  match s with
+  | [] => []
+  | c :: r => match trim_right_slash r with
+              | [] => if c =? 47 then [] else [c]
+              | t => c :: t
+              end
+  end.
 
 (** ** url.PathUnescape *)
 Definition hexv (c : N) : option N :=
